@@ -51,6 +51,13 @@ def main():
                 tp = json.load(open(os.path.join(d, "meta.json"))).get("property") or name[:3]
             except Exception:
                 tp = name[:3]
+            if name.startswith("revert-"):
+                # reverse patch of a fix commit: its property is recorded in known_findings.json
+                sha = name.split("-", 1)[1]
+                kf = json.load(open(os.path.join(VERIF, "known_findings.json")))
+                for line in kf.get("fixed", []):
+                    if f" {sha} " in line:
+                        tp = line.split("property=")[1].split()[0]
             extra = json.load(open(os.path.join(d, "meta.json"))).get("also_check", []) if os.path.exists(os.path.join(d, "meta.json")) else []
             props = [p for p in [tp] + extra if p in cl]
         elif a.props == "all":
